@@ -73,3 +73,47 @@ def build(cx, fe, tier, info, only=None):
         verify_function(ex, SQ + 'sample_shell', c_ss, env_ss2)
         c_ss.pre = orig_pre
         fn_entry(fe, info, SQ + 'sample_shell')
+
+    # ---- helper contracts used by the remaining functions
+    reg.add_contract(SC.print_status_contract())
+    reg.add_contract(SC.getter_real('log_v_live'))
+    reg.add_contract(SC.getter_real('n_eff'))
+    reg.add_contract(SC.f_live_contract())
+    reg.add_contract(SC.write_contract())
+    reg.add_contract(SC.write_shell_update_contract())
+    reg.add_contract(SC.evaluate_likelihood_contract())
+    SC.compute_bound_contracts(reg)
+    M.install_sampler_hooks(reg)
+
+    # ---- update_shell_info
+    c_usi = SC.update_shell_info_contract()
+    reg.add_contract(c_usi)
+
+    def env_usi(ex_, st):
+        return dict(self=M.make_sampler(ex_, st), index=fresh('int', 'index'))
+    if only in (None, 'update_shell_info'):
+        verify_function(ex, SQ + 'update_shell_info', c_usi, env_usi,
+                        ghost_frame=('sstate',))
+        fn_entry(fe, info, SQ + 'update_shell_info')
+
+    # ---- add_bound
+    G2 = {}
+    c_ab = SC.add_bound_contract(G2)
+    reg.add_contract(c_ab)
+
+    def env_ab(ex_, st):
+        return dict(self=M.make_sampler(ex_, st), verbose=fresh('bool', 'verbose'))
+    if only in (None, 'add_bound'):
+        verify_function(ex, SQ + 'add_bound', c_ab, env_ab)
+        fn_entry(fe, info, SQ + 'add_bound')
+
+    # ---- add_samples
+    c_as = SC.add_samples_contract()
+    reg.add_contract(c_as)
+
+    def env_as(ex_, st):
+        return dict(self=M.make_sampler(ex_, st), shell=fresh('int', 'shell'),
+                    verbose=fresh('bool', 'verbose'))
+    if only in (None, 'add_samples'):
+        verify_function(ex, SQ + 'add_samples', c_as, env_as)
+        fn_entry(fe, info, SQ + 'add_samples')
